@@ -75,6 +75,7 @@ fn main() {
   let mut out = std::io::BufWriter::new(out.lock());
   let no_dump = args.iter().any(|a| a == "--nodump");
   let fresh = args.iter().any(|a| a == "--fresh");
+  let noise = args.iter().any(|a| a == "--noise");
   for_each_case(&args[1], |idx, toks| {
     writeln!(out, "C {}", idx).unwrap();
     let mut t = Toks { t: &toks, i: 0 };
@@ -88,6 +89,27 @@ fn main() {
       TABLE.with(|tb| tb.borrow_mut().insert(id, Rc::new(code)));
     }
     assert_eq!(t.next(), "H");
+    if noise {
+      // an earlier, unrelated instance in the same thread: it builds every task of the program top-down (aborts are caught), then
+      // changes its own resources and ABANDONS a bottom-up build after scheduling (the build is dropped with a non-empty queue)
+      let ids: Vec<u32> = TABLE.with(|tb| { let mut v: Vec<u32> = tb.borrow().keys().copied().collect(); v.sort(); v });
+      let mut pie0: Pie<Trk> = Pie::with_tracker(CompositeTracker::new(CompositeTracker::new(Rec::default(), EventTracker::default()), Rec::default()));
+      for r in 0..14u32 { pie0.resource_state_mut::<R>().get_global_map_mut().insert(R(r), 1); }
+      {
+        let mut session = pie0.new_session();
+        for id in &ids { let _ = catch_unwind(AssertUnwindSafe(|| { session.require(&T(*id)); })); }
+      }
+      for r in 0..14u32 { pie0.resource_state_mut::<R>().get_global_map_mut().insert(R(r), 2); }
+      let _ = catch_unwind(AssertUnwindSafe(|| {
+        let mut session = pie0.new_session();
+        let mut bu = session.create_bottom_up_build();
+        for r in 0..14u32 { bu.schedule_tasks_affected_by(&R(r)); }
+        // dropped here without update_affected_tasks
+      }));
+      drop(pie0);
+      EXECLOG.with(|l| l.borrow_mut().clear());
+      CHECKLOG.with(|l| l.borrow_mut().clear());
+    }
     let mut pie: Pie<Trk> = Pie::with_tracker(CompositeTracker::new(CompositeTracker::new(Rec::default(), EventTracker::default()), Rec::default()));
     let mut step = 0usize;
     let mut known: std::collections::BTreeSet<u32> = std::collections::BTreeSet::new();
